@@ -79,8 +79,24 @@ pub fn yield_point(name: &'static str) {
     g.parked.remove(&tid);
 }
 
+/// events of the run (hook points with the thread that hit them), in the order in which the
+/// recorder lock was taken; exact for hooks inside a critical section of the code under test
+static TRACE: Mutex<Option<Vec<Value>>> = Mutex::new(None);
+
 fn install() {
-    jammdb::verif::set_handler(Some(Arc::new(|name: &'static str, _args: &[(&'static str, u64)]| {
+    jammdb::verif::set_handler(Some(Arc::new(|name: &'static str, args: &[(&'static str, u64)]| {
+        let tid = TID.with(|t| t.get());
+        if tid != 0 {
+            if let Some(tr) = TRACE.lock().unwrap().as_mut() {
+                let mut m = serde_json::Map::new();
+                m.insert("ev".into(), json!(name));
+                m.insert("tid".into(), json!(tid));
+                for (k, v) in args {
+                    m.insert((*k).into(), json!(*v));
+                }
+                tr.push(Value::Object(m));
+            }
+        }
         yield_point(name);
     })));
 }
@@ -203,6 +219,8 @@ struct Plan {
     vlen: usize,
     pagesize: u64,
     num_pages: usize,
+    /// the first commit made by a thread grows the file (otherwise the file is pre-sized)
+    grow: bool,
 }
 
 /// one controlled run; returns the observations and the list of problems found
@@ -228,6 +246,24 @@ fn run_one(plan: &Plan, sched: &[(i64, String)], path: &std::path::Path, random:
             return (vec![], vec![format!("initial commit: {}", e)]);
         }
     }
+    // cut the file to exactly its high-water mark and reopen, so that the FIRST commit made by a
+    // thread has to grow (and re-map) the file while other threads are active
+    drop(db);
+    if plan.grow {
+        let data = std::fs::read(path).unwrap_or_default();
+        let ps = plan.pagesize as usize;
+        let metas = [data.get(0..ps).and_then(crate::parse::decode_meta), data.get(ps..2 * ps).and_then(crate::parse::decode_meta)];
+        if let Some(c) = crate::parse::choose(&metas) {
+            let np = metas[c].as_ref().unwrap().num_pages;
+            if let Ok(f) = std::fs::OpenOptions::new().write(true).open(path) {
+                let _ = f.set_len(np * plan.pagesize);
+            }
+        }
+    }
+    let db = match OpenOptions::new().pagesize(plan.pagesize).num_pages(plan.num_pages).open(path) {
+        Ok(d) => d,
+        Err(e) => return (vec![], vec![format!("reopen: {}", e)]),
+    };
     let sh = Arc::new(Shared {
         db,
         in_write: AtomicI64::new(0),
@@ -237,6 +273,10 @@ fn run_one(plan: &Plan, sched: &[(i64, String)], path: &std::path::Path, random:
         vlen: plan.vlen,
         log: Mutex::new(Vec::new()),
     });
+    if let Some(tr) = TRACE.lock().unwrap().as_mut() {
+        // the initial commit made this the current header: tx 1
+        tr.push(json!({"ev":"reset","txid":1}));
+    }
     let c = Arc::new(Ctl { st: Mutex::new(St::default()), cv: Condvar::new() });
     *CTL.lock().unwrap() = Some(c.clone());
     ACTIVE.store(true, Ordering::SeqCst);
@@ -287,6 +327,24 @@ fn run_one(plan: &Plan, sched: &[(i64, String)], path: &std::path::Path, random:
     let mut rng = random.map(StdRng::seed_from_u64);
     let mut steps = 0usize;
     let mut idx = 0usize;
+    // random mode = priority scheduling with a few random priority drops (PCT): the runnable thread
+    // of highest priority runs; at d random steps the running thread drops below everybody
+    let mut prio: HashMap<i64, i64> = HashMap::new();
+    let mut drops: Vec<usize> = Vec::new();
+    if let Some(r) = rng.as_mut() {
+        let mut order: Vec<i64> = all.clone();
+        for i in (1..order.len()).rev() {
+            order.swap(i, r.gen_range(0..=i));
+        }
+        for (i, t) in order.iter().enumerate() {
+            prio.insert(*t, 100 + i as i64);
+        }
+        let d = r.gen_range(1..=4);
+        for _ in 0..d {
+            drops.push(r.gen_range(1..90));
+        }
+    }
+    let mut low = 0i64;
     loop {
         crate::tick();
         // next thread to step
@@ -306,7 +364,13 @@ fn run_one(plan: &Plan, sched: &[(i64, String)], path: &std::path::Path, random:
                 }
                 continue;
             }
-            cands[r.gen_range(0..cands.len())]
+            let _ = r;
+            let best = *cands.iter().max_by_key(|t| prio.get(t).cloned().unwrap_or(0)).unwrap();
+            if drops.contains(&steps) {
+                low -= 1;
+                prio.insert(best, low);
+            }
+            best
         } else {
             if idx >= sched.len() {
                 break;
@@ -481,7 +545,8 @@ pub fn sched_run(a: &Args) -> i32 {
         nkeys: a.n("nkeys", 8) as usize,
         vlen: a.n("vlen", 180) as usize,
         pagesize: a.n("pagesize", 1024) as u64,
-        num_pages: a.n("num-pages", 8) as usize,
+        num_pages: if a.n("grow", 1) != 0 { 4 } else { 4096 },
+        grow: a.n("grow", 1) != 0,
     };
     let out = a.s("out", "/dev/stdout");
     let progress = format!("{}.progress", out);
@@ -492,6 +557,10 @@ pub fn sched_run(a: &Args) -> i32 {
     let mut runs = 0u64;
     let mut bad = 0u64;
     let mut sample: Vec<Value> = Vec::new();
+    let trace_out = a.s("trace-out", "");
+    if !trace_out.is_empty() {
+        *TRACE.lock().unwrap() = Some(Vec::new());
+    }
     let mut do_run = |idx: usize, sched: &[(i64, String)], random: Option<u64>, w: &mut std::io::BufWriter<std::fs::File>| {
         std::fs::write(&progress, format!("{}", idx)).ok();
         let (log, problems) = run_one(&plan, sched, &path, random);
@@ -542,6 +611,15 @@ pub fn sched_run(a: &Args) -> i32 {
                 alive = false;
                 break;
             }
+        }
+    }
+    if !trace_out.is_empty() {
+        if let Some(tr) = TRACE.lock().unwrap().take() {
+            let mut tw = std::io::BufWriter::new(std::fs::File::create(&trace_out).unwrap());
+            for e in tr {
+                writeln!(tw, "{}", e).unwrap();
+            }
+            tw.flush().unwrap();
         }
     }
     writeln!(w, "{}", json!({"summary": true, "runs": runs, "bad": bad, "sample": sample, "alive": alive})).unwrap();
